@@ -116,10 +116,26 @@ func (t Type) pair() (Type, Type) {
 
 func (t Type) isSafeStr() bool {
 	switch t.base() {
-	case TypeSlice, TypeMap, TypeStruct:
+	case TypeSlice:
+		return t.value().isSafeElem()
+	case TypeMap:
+		_, v := t.pair()
+		return v.isSafeElem()
+	case TypeStruct:
 		return false
 	}
 	return true
+}
+
+// isSafeElem reports whether a container with this element type can be printed
+// recursively without any risk of a cycle: its elements are scalars or containers
+// of scalars. An element type of any (or a struct reference) may lead back to the
+// container itself.
+func (t Type) isSafeElem() bool {
+	if t == TypeNil {
+		return false
+	}
+	return t.isSafeStr()
 }
 
 func sliceType(value Type) Type {
